@@ -105,6 +105,14 @@ int vl_case (const char *fmt, ...)
 	return 1 ;
 }
 
+void vl_subcase (const char *fmt, ...)
+{	va_list ap ;
+	if (! in_case || replay_mode) return ;
+	va_start (ap, fmt) ; vsnprintf (cur_spec_local, SPEC_LEN, fmt, ap) ; va_end (ap) ;
+	memcpy (sh->cur_spec, cur_spec_local, SPEC_LEN) ;
+	sh->heartbeat ++ ;
+}
+
 const char *vl_spec (void) { return cur_spec_local ; }
 int vl_replaying (void) { return replay_mode ; }
 int vl_case_violations (void) { return case_viols ; }
